@@ -229,6 +229,18 @@ CHECKS["C12"] = dict(
          "Strings of 4+ arbitrary tokens are covered only through corpus edits and generated inputs.",
     design_ref="DESIGN.md section 5 C12", category="exploration")
 
+CHECKS["C06"] = dict(
+    technique="TLA+ forward-mode (dual number) evaluator over the rationals (KgDual.tla), evaluated by TLC on every generated expression "
+              "tree and point (KgDualCases.tla) to obtain the exact partial derivatives; every case rendered in each gradient form and "
+              "executed under the NumPy (numeric) and PyTorch (autograd) backends, results compared with the exact derivative",
+    text="Expression trees over + - * %, integer powers, negation, +/ reductions, indexing, each and vectors built from scalars (all trees "
+         "of the small families plus seeded deeper ones) x integer and real points of dimension 2 and 3, a scalar parameter, two named "
+         "parameters and a point aliased by a global the function reads; forms f:>p, p∇f, sym∇f, p∂g, .jacobian, loss:>[w b], "
+         "loss:>[b w], [w b]∂g: |result - exact| <= 5e-5(1+|exact|) numerically, 5e-4(1+|exact|) for float32 autograd.",
+    note="Trusted: TLC, the rendering of trees as Klong source, a Fraction-based size guard. Transcendental functions are outside the "
+         "rational evaluator. Numeric ∇ under torch (float32) is an open finding bounded to 6% error.",
+    design_ref="DESIGN.md section 5 C06", category="exploration")
+
 NOT_YET = {}
 
 
